@@ -20,6 +20,9 @@ class Prog:
     def gate(self, g, d, a, b=0, c=0):
         self.lines.append("gate %s %d %d %d %d" % (g, d, a, b, c)); self.gates += 1
 
+    def steer(self, r, v):
+        self.lines.append("steer %d %d" % (r, v))
+
     def const(self, d, v):
         self.lines.append("const %d %d" % (d, v))
 
@@ -68,6 +71,14 @@ def truth_table_sweep(p, lam, seed, rnd, kinds=None):
         for k in kinds[:4]:
             put(0, x, k, 0)
             p.gate("NOT", 2, 0); p.gate("COPY", 3, 0); p.const(4, x); p.dec(2); p.dec(3); p.dec(4)
+    # inputs re-randomised (same phases) so that the body of the combination the gate bootstraps is exactly 0: the rounded body barb = 0
+    MU = 1 << 29
+    KC = {"NAND": (1, -1), "OR": (1, 1), "AND": (-1, 1), "XOR": (2, 2), "XNOR": (-2, -2), "NOR": (-1, -1), "ANDNY": (-1, 1), "ANDYN": (-1, -1), "ORNY": (1, 1), "ORYN": (1, -1)}     # (K, CB) of spec/Gates.tla
+    for g in BIN:
+        x, y = rnd.randint(0, 1), rnd.randint(0, 1)
+        K, cb = KC[g]
+        p.load(0, x); p.load(1, y); p.steer(0, 0); p.steer(1, (-K * MU // cb) % (1 << 32)); p.gate(g, 2, 0, 1)
+    p.load(0, 1); p.load(1, 0); p.load(3, 1); p.steer(0, 0); p.steer(1, MU); p.steer(3, MU); p.gate("MUX", 2, 0, 1, 3)
     # aliasing: result is one of the inputs, inputs equal
     for g in BIN:
         x, y = rnd.randint(0, 1), rnd.randint(0, 1)
